@@ -947,6 +947,11 @@ def _resolve_action_conflicts(
                         # Adding _action_uid to avoid formatting flipping by black.
                         _action_uid = winning_event.action_uid
                         competing_flow_state.action_uids[index] = _action_uid
+                        # The open scopes of the flow (when/or-group) must refer to the shared action as well
+                        for _, scope_action_uids in competing_flow_state.scopes.values():
+                            for idx, uid in enumerate(scope_action_uids):
+                                if uid == competing_event.action_uid:
+                                    scope_action_uids[idx] = _action_uid
                         del state.actions[competing_event.action_uid]
 
                     advancing_heads.append(head)
